@@ -1,20 +1,28 @@
 from .. import flow
 from ..engines_policy import PolicyEngine
 
-ENGINES = [PolicyEngine(p) for p in ("lru", "fifo", "sieve", "clock")]
+ENGINES = [PolicyEngine(p) for p in ("lru", "fifo", "sieve", "clock", "slru", "random", "arc", "tinylfu")]
 BY = {e.pol: e for e in ENGINES}
 
 ASSUMPTIONS = [
-    "LruList's arena/index links/HashMap and Sieve/Clock's HashMap+order pair are modelled as one ordered list; tied by D1 on every run",
-    "u64 cost arithmetic modelled on unbounded N (no overflow: costs <= 100, <= 200 calls)",
+    "LruList's arena/index links/HashMap, Sieve/Clock's HashMap+order pair and Random's HashMap are modelled as (ordered) key/cost lists; tied by D1 on every run",
+    "u64 cost arithmetic modelled on unbounded N (no overflow: costs <= 100, <= 200 calls; a few corpus cases with costs < 2^26)",
     "keys are u64 compared by equality; the policy's Mutex makes each trait call atomic (calls are sequential in D1)",
-    "Slru, Arc, TinyLfu, Random: see level_note",
+    "f64 in SlruPolicy::new / TinyLfuPolicy::new ((cap as f64 * 0.20).round(), * 0.01) and in Arc's delta ((a as f64 / b as f64).round()) is modelled as exact round-half-away-from-zero on N, floor((2a+b)/2b); the two agree for operands < 2^26 and D1 stays below that (TinyLfu capacities <= 1000 because the real sketch allocates 40 * capacity counters)",
+    "TinyLfu's count-min sketch (ahash, random seeds, periodic halving) is an abstract component of the model (any state type, increment, estimate, clear): theorems hold for every instance, the real sketch being one; Random's RNG likewise (any state type and choice function).  For these two D1 is relational: the model driver is given the implementation's output, instantiates the abstract component with the replay of its choices (rejected candidates / chosen victims), and the model's output under that instance must equal the implementation's",
+    "what a policy 'tracks' is its resident set: Slru probationary+protected, Arc T1+T2 (not the ghost lists B1/B2), TinyLfu window+probationary+protected, Random its map",
+    "Slru/Arc/TinyLfu store the cost passed to on_access as the key's recorded cost (LruList::push_front on the access path); the contract clause for them is access_update, which coincides with 'unchanged' when the cache passes the entry's cost",
+    "AdmissionDecision::Reject is returned by no built-in policy and ignored by task/janitor.rs; the contract does not admit it (the monitor reports it)",
+    "NullPolicy (unbounded caches) tracks and evicts nothing by design; not part of the claim",
 ]
 
 WITNESS = {
     "F-19-fifo": (BY["fifo"], "fifo m 1 1 m 1 50 e 1", "readmit-cost"),
-    "F-19-clock": (BY["clock"], "clock m 1 1 m 1 50 e 1", "readmit-cost"),
+    "F-20-arc-admit": (BY["arc"], "arc:2 m 1 1 m 2 1 m 3 1 e 3", "arc-unevictable-resident"),
 }
+# fixed (known_findings.txt `fixed:` lines, no witness): F-19-clock, F-19-slru (readmit-cost),
+# F-20-arc-evict (arc-evict-stall), F-21-tinylfu (tinylfu-window-unevictable).  Their monitor
+# clauses stay in place and are ordinary violations now; their shapes stay in the corpus.
 
 
 def run(tier, seed):
@@ -23,9 +31,9 @@ def run(tier, seed):
 MANIFEST = {
     "engine": "E-POLICY",
     "engines": [{"name": "E-POLICY", "path": "coq/Cache/Policy*.v, coq/Proofs/Policy*Proofs.v, ocaml/eng_policy.ml, harness/seqdrv/src/bin/policy.rs",
-                 "kind": "K1 pure-function models of the eviction policies; contract proved for all call sequences; D1 differential tie through the public CachePolicy trait"}],
+                 "kind": "K1 pure-function models of the eight eviction policies (TinyLfu's sketch and Random's RNG as abstract components); contract proved for all call sequences; D1 tie through the public CachePolicy trait (functional for six policies, relational for Random/TinyLfu)"}],
     "technique": "Coq proof of the policy contract for all call sequences (induction over calls) + differential correspondence of the extracted model against fibre_cache::policy::*",
-    "text": "Coq theorems (Props/C14.v): for every call sequence, Lru/Sieve satisfy the full C14 contract (victims tracked, no duplicates, exact recorded costs, tracking ends only via victim/remove/clear, evict frees >= n when possible, re-admission updates cost); Fifo/Clock satisfy it except the re-admission clause, which is refuted on the faithful model (known finding F-19) and replayed on the implementation. LRU/FIFO eviction-order theorems. The hand-written model is tied to the code by running the extracted model and the real policies on the same generated call sequences every run.",
+    "text": "Coq theorems (Props/C14.v, Props/C14_more.v): for every call sequence (and every capacity, every RNG, every frequency sketch), Lru/Sieve/Clock/Slru/Random/TinyLfu satisfy the full C14 contract (victims tracked, no duplicates, exact recorded costs, tracking ends only via victim/remove/clear -- or, for TinyLfu, via the victims of an AdmitAndEvict decision --, evict frees >= n when possible, re-admission updates cost); Fifo satisfies it except the re-admission clause (F-19-fifo, pinned upstream); Arc satisfies it, including sufficiency, except that an admission may silently drop one other resident (F-20-arc-admit). Both exceptions are refuted on the faithful model with a witness that is replayed on the implementation and judged by the monitor. LRU/FIFO/SLRU eviction-order theorems. The hand-written models are tied to the code by running the extracted models and the real policies on the same generated call sequences every run.",
     "design_ref": "DESIGN.md §8 C14, §7 E-POLICY",
-    "note": "Trusted: Coq kernel, ExtrOcamlBasic extraction + OCaml driver, the D1 harness/generators. Modelled not verified: arena/HashMap internals (abstracted to ordered lists), u64 overflow.",
+    "note": "Trusted: Coq kernel, ExtrOcamlBasic extraction + OCaml driver (incl. the replay instances for Random/TinyLfu), the D1 harness/generators. Modelled not verified: arena/HashMap internals (abstracted to ordered lists), u64 overflow, f64 rounding (exact below 2^26), the count-min sketch and the RNG (abstract; theorems hold for every instance).",
 }
